@@ -38,6 +38,7 @@ const (
 	DevLenField         // add Val to the N-th length/count field inside the message body (nothing else adjusted)
 	DevFinishedEarly    // (on the last unit before ChangeCipherSpec, client only) the first 1+N%16 bytes of the Finished message travel in the clear in the same record as this message; the rest follows after ChangeCipherSpec
 	DevPlainFinished    // (on the ChangeCipherSpec unit) no ChangeCipherSpec and no key switch: Finished follows in plaintext; with Val=1 a handshake message of type Typ is sent in its place
+	DevSwapNext         // this unit changes places with the next one; the scripted peer hashes (and signs) in the order sent, so only the endpoint's state machine can object
 )
 
 // Dev is one deviation.
@@ -95,6 +96,8 @@ type Conn struct {
 	// the Finished message for the transcript as it stands (DevFinishedEarly)
 	EarlyFin func() []byte
 	earlyK   int
+	held     []byte // DevSwapNext: handshake message held back until the next unit has gone out
+	heldName string
 }
 
 // NewConn wraps a transport.
@@ -313,6 +316,17 @@ func (c *Conn) sendUnit(recType uint8, name string, plain []byte) error {
 // appends the honest form to the transcript. Message-level deviations are
 // applied here, wire-level ones in sendUnit.
 func (c *Conn) WriteHandshake(typ uint8, body []byte) error {
+	if d := c.devFor(c.sent); d != nil && d.Kind == DevSwapNext && c.held == nil {
+		d.Fired, d.Changed = true, true
+		c.sent++
+		c.held = Handshake(typ, body)
+		c.heldName = HsName(typ)
+		c.SentUnits = append(c.SentUnits, HsName(typ)+"(held back)")
+		return nil
+	}
+	if c.held != nil {
+		defer c.releaseHeld()
+	}
 	c.Transcript = append(c.Transcript, Handshake(typ, body)...)
 	wire := Handshake(typ, body)
 	if typ == HsFinished && c.earlyK > 0 {
@@ -418,10 +432,28 @@ func (c *Conn) PreUnit() error {
 	return c.rawWrite(c.recordBytes(d.Typ, c.RecVers, d.RecBody, nil))
 }
 
+// releaseHeld sends the message held back by DevSwapNext (after the unit that
+// overtook it) and hashes it at that position.
+func (c *Conn) releaseHeld() {
+	h := c.held
+	if h == nil {
+		return
+	}
+	c.held = nil
+	c.Transcript = append(c.Transcript, h...)
+	c.SentUnits = append(c.SentUnits, c.heldName+"(late)")
+	c.rawWrite(c.recordBytes(RecHandshake, c.RecVers, h, nil))
+}
+
 // WriteCCS sends ChangeCipherSpec (a unit) and leaves protection switching to
 // the caller.
 func (c *Conn) WriteCCS() error {
-	return c.sendUnit(RecCCS, "ChangeCipherSpec", []byte{1})
+	if d := c.devFor(c.sent); d != nil && d.Kind == DevSwapNext {
+		d.Fired = true // (ChangeCipherSpec itself is not held back: handled as no deviation)
+	}
+	err := c.sendUnit(RecCCS, "ChangeCipherSpec", []byte{1})
+	c.releaseHeld()
+	return err
 }
 
 // ReadHandshake returns the next handshake message; ChangeCipherSpec is
